@@ -33,6 +33,7 @@ class DocModels(GenModels):
         def yaml_from_str(c, m, a):
             ty = m.group("t")
             # the YAML reader is cut: it either rejects the text or yields an (empty) configuration — the same answer for the same text
+            c.notes.setdefault("yaml_texts", []).append((ty, "".join(chr(ch.v) if ch.concrete else "?" for ch in as_str(a[0]).chars)))
             key = ("yaml", ty, tuple((ch.v if ch.concrete else str(ch.z())) for ch in as_str(a[0]).chars))
             memo = c.notes.setdefault("yaml_memo", {})
             if key not in memo:
@@ -49,6 +50,7 @@ class DocModels(GenModels):
 
 MD_TEMPLATES = {
     "P": ("p", 1),      # prose: 'p' + letter
+    "U": ("\u00e9", 1),  # prose that opens with a non-ASCII letter: 'é' + letter
     "H": ("# ", 1),     # heading / comment inside a block
     "B": ("", 0),       # blank
     "F": ("```s", 0),   # scrut fence
@@ -61,11 +63,14 @@ MD_TEMPLATES = {
     "L": ("````s", 0),  # scrut fence of four backticks (nested shorter fences are content)
     "K": ("````", 0),   # bare fence of four backticks
     "I": ("  ```", 0),  # an indented backtick run: never a fence
+    "J": ("```s {keep_crlf: true}", 0),    # scrut fence with inline configuration
+    "Q": ("```s {keep_crlf: true} ", 0),   # the same with a trailing blank
     "D": ("---", 0),    # front-matter delimiter (only generated as first line and as its closing line)
     "Y": ("k: ", 1),    # a line of front-matter
 }
-FENCES = {"F": 3, "V": 3, "E": 3, "L": 4, "K": 4}      # template → number of backticks at the start of the line
-SCRUT_FENCES = ("F", "L")
+FENCES = {"F": 3, "V": 3, "E": 3, "L": 4, "K": 4, "J": 3, "Q": 3}      # template → number of backticks at the start of the line
+SCRUT_FENCES = ("F", "L", "J", "Q")
+INLINE_CONFIG = "{keep_crlf: true}"
 
 
 def closes(opener, t):
@@ -167,7 +172,7 @@ def md_reference_body(seq):
             run_open = False
             i = j + 1 if j < n else n
             continue
-        if t in ("P", "X", "H", "I"):
+        if t in ("P", "X", "H", "I", "U"):
             if not run_open:
                 last_title_run = []
                 run_open = True
@@ -244,6 +249,13 @@ def md_post(ctx, args, kind, value):
         return True
     if len(tests) != len(want):
         return False
+    # the inline configuration of every scrut block reaches the YAML reader exactly as written (nothing dropped, nothing added)
+    k_fm = max(front_matter_len(seq), 0)
+    blocks = [b for b in md_blocks(seq) if b[0] == "test"]
+    written = [INLINE_CONFIG for b in blocks if seq[b[1]] in ("J", "Q")]
+    handed = [t for ty, t in ctx.notes.get("yaml_texts", []) if ty == "TestCaseConfig"]
+    if handed != written and all(any(seq[x] == "C" for x in b[3]) for b in blocks):
+        return False              # (documents with a command-less scrut block are left out: nothing observable carries its configuration)
     conds = []
     for got, w in zip(tests, want):
         cmd = []
@@ -329,6 +341,10 @@ def md_judge_native(doc_lines_seq, nv):
         if extra < 0 or extra > len(w["pre"]) or got["expectations"][extra:] != [lines[i] for i in w["exps"]]:
             return ("parse:expectations", "document %r: expectations %r, written after the command %r (%d line(s) before it)"
                     % (lines, got["expectations"], [lines[i] for i in w["exps"]], len(w["pre"])))
+        opener = max(i for i in range(w["cmd"][0]) if seq[i] in FENCES)
+        want_crlf = seq[opener] in ("J", "Q")
+        if "keep_crlf" in got and bool(got["keep_crlf"]) != want_crlf:
+            return ("parse:inline-configuration", "document %r: the block opened by %r is parsed with keep_crlf=%r" % (lines, lines[opener], got["keep_crlf"]))
         if w["title"] != "skip":
             t = "" if w["title"] is None else (lines[w["title"]][2:] if seq[w["title"]] == "H" else lines[w["title"]])
             if got["title"] != t:
@@ -353,6 +369,17 @@ def h_md_parse(max_len):
         if s_ not in seen:
             seqs.append(s_)
             seen.add(s_)
+    # titles that open with a non-ASCII letter
+    for s_ in md_sequences(max_len, "UPBFC"):
+        if s_ not in seen and "U" in s_:
+            seqs.append(s_)
+            seen.add(s_)
+    # inline configuration after the fence language (with and without a trailing blank)
+    for need in "JQ":
+        for s_ in md_sequences(max_len, need + "CXPE", need=need):
+            if s_ not in seen:
+                seqs.append(s_)
+                seen.add(s_)
     inputs = [("doc=%s" % (s or "(empty)"), mk_md_setup(s)) for s in seqs]
     h = e2.Harness("markdown_parse_documents", md_parse_driver, inputs, md_post, native="markdown_parse", judge=None,
                    describe="parse is Err, or yields exactly the scrut blocks that contain a `$` command, in order, with the written shell "
